@@ -153,8 +153,7 @@ func (e *Engine) verifyFunc(fn *ssa.Function, c *Contract) (vc *VC, err error) {
 			if err != nil {
 				return vc, fmt.Errorf("%s:%d: %v", en.File, en.Line, err)
 			}
-			vc.instantiateForGoal(t, sks)
-			vc.oblige(res.normal, "post", c.clauseName(en), t, fn.Pos(), en.Text)
+			vc.obligeHinted(res.normal, "post", c.clauseName(en), t, sks, fn.Pos(), en.Text)
 		}
 		if err := fr.frameObligations(c, res.normal, "frame"); err != nil {
 			return vc, err
